@@ -1,23 +1,151 @@
 package main
 
 import (
+	"flag"
 	"fmt"
 	"os"
-
-	"golang.org/x/tools/go/packages"
-	"golang.org/x/tools/go/ssa"
-	"golang.org/x/tools/go/ssa/ssautil"
-	"golang.org/x/tools/go/callgraph/vta"
-	"golang.org/x/tools/go/callgraph/cha"
+	"path/filepath"
+	"sort"
+	"strconv"
+	"strings"
+	"time"
 )
 
+// A rule set decides the claimed clauses of one property on one World.
+type ruleFn func(w *World, r *Report)
+
+var registry = map[string]ruleFn{}
+var explain = map[string][2]string{} // property -> {explanation, rule text}
+var assumptions = map[string][]string{}
+
+func register(prop string, fn ruleFn, explanation, ruleText string, assume ...string) {
+	registry[prop] = fn
+	explain[prop] = [2]string{explanation, ruleText}
+	assumptions[prop] = assume
+}
+
+func configsFor(tier string) []Config {
+	if tier == "thorough" {
+		return []Config{
+			{GOOS: "linux", GOARCH: "amd64"},
+			{GOOS: "linux", GOARCH: "amd64", CHA: true},
+			{GOOS: "linux", GOARCH: "386"},
+			{GOOS: "linux", GOARCH: "arm64"},
+			{GOOS: "windows", GOARCH: "amd64"},
+			{GOOS: "linux", GOARCH: "amd64", Tags: "verif"},
+			{GOOS: "linux", GOARCH: "386", Tags: "verif"},
+		}
+	}
+	return []Config{{GOOS: "linux", GOARCH: "amd64"}}
+}
+
 func main() {
-	cfg := &packages.Config{Mode: packages.LoadAllSyntax, Dir: "/repo"}
-	pkgs, err := packages.Load(cfg, "./...")
-	if err != nil { panic(err) }
-	prog, spkgs := ssautil.AllPackages(pkgs, ssa.InstantiateGenerics)
-	prog.Build()
-	cg := vta.CallGraph(ssautil.AllFunctions(prog), cha.CallGraph(prog))
-	fmt.Println(len(pkgs), len(spkgs), len(cg.Nodes))
-	_ = os.Stdout
+	prop := flag.String("property", "", "property id (C01..C17) or 'all'")
+	tier := flag.String("tier", "", "quick|thorough (default: $VERIF_TIER or quick)")
+	repo := flag.String("repo", "/repo", "repository root")
+	verif := flag.String("verif", "", "verif directory (default: parent of the binary's directory)")
+	dump := flag.String("dump", "", "debug: preds|flow:<func>|forms|dispatch")
+	replay := flag.String("replay", "", "replay file: re-evaluate the property of that obligation verbosely")
+	flag.Parse()
+	if *tier == "" {
+		*tier = os.Getenv("VERIF_TIER")
+	}
+	if *tier != "thorough" {
+		*tier = "quick"
+	}
+	seed := 0
+	if s := os.Getenv("VERIF_SEED"); s != "" {
+		seed, _ = strconv.Atoi(s)
+	}
+	if *verif == "" {
+		exe, _ := os.Executable()
+		*verif = filepath.Dir(filepath.Dir(exe))
+	}
+	if *replay != "" {
+		b, err := os.ReadFile(*replay)
+		if err != nil {
+			fmt.Println("ERROR", err)
+			os.Exit(2)
+		}
+		fmt.Printf("replaying obligation:\n%s\n", b)
+		base := filepath.Base(*replay)
+		if i := strings.Index(base, "-"); i > 0 {
+			*prop = base[:i]
+		}
+	}
+	if *dump != "" {
+		w, err := loadWorld(*repo, Config{GOOS: "linux", GOARCH: "amd64"})
+		if err != nil {
+			fmt.Println("ERROR", err)
+			os.Exit(2)
+		}
+		debugDump(w, *dump)
+		return
+	}
+	var props []string
+	if *prop == "all" {
+		for p := range registry {
+			props = append(props, p)
+		}
+		sort.Strings(props)
+	} else if _, ok := registry[*prop]; ok {
+		props = []string{*prop}
+	} else {
+		fmt.Printf("ERROR unknown property %q\n", *prop)
+		os.Exit(2)
+	}
+	started := time.Now()
+	cfgs := configsFor(*tier)
+	var worlds []*World
+	var cfgNames []string
+	for _, c := range cfgs {
+		w, err := loadWorld(*repo, c)
+		if err != nil {
+			// a tree that does not load is not analysable: every property fails
+			for _, p := range props {
+				fmt.Printf("UNDECIDED %s: cannot analyse %s: %v\n", p, c, err)
+				fmt.Printf("VIOLATION property=%s replay=%s\n", p, filepath.Join(*verif, "evidence", p+".json"))
+			}
+			os.Exit(1)
+		}
+		if len(w.Pkgs) < 2 || w.NFiles < 15 {
+			for _, p := range props {
+				fmt.Printf("UNDECIDED %s: only %d packages / %d library files were loaded for %s\n", p, len(w.Pkgs), w.NFiles, c)
+				fmt.Printf("VIOLATION property=%s replay=%s\n", p, filepath.Join(*verif, "evidence", p+".json"))
+			}
+			os.Exit(1)
+		}
+		worlds = append(worlds, w)
+		cfgNames = append(cfgNames, c.String())
+	}
+	exit := 0
+	for _, p := range props {
+		t0 := time.Now()
+		if len(props) == 1 {
+			t0 = started
+		}
+		rep := newReport(p)
+		rep.Explain = explain[p][0]
+		rep.RuleText = explain[p][1]
+		rep.Assume = assumptions[p]
+		evals := 0
+		for _, w := range worlds {
+			rep.cfg = w.Cfg.String()
+			before := len(rep.Obls)
+			func() {
+				defer func() {
+					if e := recover(); e != nil {
+						rep.undecided("internal", "analyser panic under "+w.Cfg.String(), "-", fmt.Sprint(e))
+					}
+				}()
+				registry[p](w, rep)
+			}()
+			evals += len(rep.Obls) - before
+		}
+		rep.note("packages=%d library_files=%d package_functions=%d", len(worlds[0].Pkgs), worlds[0].NFiles, len(worlds[0].SrcFuncs()))
+		if c := finish(rep, *tier, seed, *verif, cfgNames, t0, evals); c > exit {
+			exit = c
+		}
+	}
+	os.Exit(exit)
 }
